@@ -77,6 +77,16 @@ func genAffinityPlan(seed uint64, tier string) *Plan {
 			// sequence numbers up to 2^31-1; now and then the client is itself a relay (its request carries the Via of
 			// the party behind it, on a line of its own or on the same line)
 			op.I["cseq"] = g.pick2(1, 1, 1, 7, 65535, 65536, 81234, 2147483647)
+			if !sameSentBy && op.S["sentby"] == "" && g.chance(12) {
+				op.S["sentby"] = clientIP // no port in the sent-by: the default applies wherever a port is needed
+				op.I["rport"] = 0
+			}
+			if op.S["branch"] == "" && g.chance(8) {
+				op.S["branch"] = "z9hG4bK%41x7~" + g.alnumL(4, 8) // '%' and '~' are token characters
+			}
+			if g.chance(5) {
+				op.I["bigAnswer"] = 41000 + g.intn(20000) // the final answer carries a body of 40-60 KiB (one datagram)
+			}
 			if g.chance(25) {
 				op.I["lowerVia"] = 1 + g.intn(2)
 			}
@@ -191,7 +201,7 @@ func execAffinity(t *testing.T, p *Plan) *Result {
 					t += 100 * time.Microsecond
 				}
 			}
-			out = append(out, respPlan{delay: t + time.Duration(op.I["d2"])*time.Microsecond, status: op.I["final"], toTag: "t" + strings.ReplaceAll(id, "-", ""), expires: -1, b2b: op.I["b2b"] == 1})
+			out = append(out, respPlan{delay: t + time.Duration(op.I["d2"])*time.Microsecond, status: op.I["final"], toTag: "t" + strings.ReplaceAll(id, "-", ""), expires: -1, b2b: op.I["b2b"] == 1, bodyLen: op.I["bigAnswer"]})
 			return out
 		}
 		l := p.Cfg.Listens[0]
